@@ -71,6 +71,8 @@ type Lemma struct {
 	Steps    []LemmaStep
 	File     string
 	Pkg      string
+	ReplayPkg  string // package directory (below the module root) in which ReplayExpr is evaluated
+	ReplayExpr string // Go boolean expression over the lemma's variables that must hold on the real code
 }
 
 type OpaqueDecl struct{ GoType, Sort string }
@@ -90,7 +92,7 @@ func NewContractSet() *ContractSet {
 	return &ContractSet{Specs: map[string]*SpecFunc{}, Funcs: map[string]*FuncContract{}, Lemmas: map[string]*Lemma{}}
 }
 
-var kwRe = regexp.MustCompile(`^(pure|func|lemma|requires|ensures-bounded|ensures|opaque|loop|invariant|decreases|axiom|def|use|assert|table|literal|note|terminates)\b`)
+var kwRe = regexp.MustCompile(`^(pure|func|lemma|requires|ensures-bounded|ensures|opaque|replay|loop|invariant|decreases|axiom|def|use|assert|table|literal|note|terminates)\b`)
 var labelRe = regexp.MustCompile(`^@([A-Za-z0-9_\-/.]+):\s*`)
 
 type rawLine struct {
@@ -202,6 +204,17 @@ func (cs *ContractSet) LoadContractFile(path, pkgPath string, trusted bool) erro
 				return fmt.Errorf("%s:%d: opaque <pkg.Type> <Sort>", path, r.line)
 			}
 			cs.Opaque = append(cs.Opaque, OpaqueDecl{f[0], f[1]})
+		case "replay":
+			// replay <pkgdir>: <Go expression over the lemma variables>
+			if curLemma == nil {
+				return fmt.Errorf("%s:%d: replay outside lemma", path, r.line)
+			}
+			i := strings.Index(r.rest, ":")
+			if i < 0 {
+				return fmt.Errorf("%s:%d: replay <pkgdir>: <expr>", path, r.line)
+			}
+			curLemma.ReplayPkg = strings.TrimSpace(r.rest[:i])
+			curLemma.ReplayExpr = strings.TrimSpace(r.rest[i+1:])
 		case "def":
 			if curSpec == nil {
 				return fmt.Errorf("%s:%d: def outside pure func", path, r.line)
